@@ -59,9 +59,17 @@ pub broadcast proof fn axiom_display_string(s: &String, r: String)
 pub broadcast proof fn axiom_display_u128(s: &u128, r: String)
     ensures #[trigger] vstd::string::to_string_from_display_ensures::<u128>(s, r) ==> r@ == u128_str(*s as int)
 {}
+#[verifier::external_body]
+pub broadcast proof fn axiom_string_eq_spec(a: String, b: String)
+    ensures #[trigger] <String as vstd::std_specs::cmp::PartialEqSpec<String>>::eq_spec(&a, &b) == (a@ == b@)
+{}
+#[verifier::external_body]
+pub broadcast proof fn axiom_string_obeys()
+    ensures #[trigger] <String as vstd::std_specs::cmp::PartialEqSpec<String>>::obeys_eq_spec()
+{}
 pub broadcast group enc_axioms {
     axiom_str_ext, axiom_string_ext, axiom_u128_str, axiom_dec_str, axiom_str_bytes, axiom_display_string,
-    axiom_display_u128,
+    axiom_display_u128, axiom_string_eq_spec, axiom_string_obeys,
 }
 
 // ---- 10^k for k <= 18 (u128::pow is given this meaning by assume_specification, A-STD)
